@@ -15,13 +15,6 @@ Definition S (s : string) : str := list_ascii_of_string s.
 Definition jn (l : list string) : string :=
   string_of_list_ascii (join_nl (map list_ascii_of_string l)).
 
-Fixpoint str_eqb (a b : str) : bool :=
-  match a, b with
-  | [], [] => true
-  | x :: a', y :: b' => Ascii.eqb x y && str_eqb a' b'
-  | _, _ => false
-  end.
-
 Definition sl (p : bool * string) : sline := if fst p then Code (S (snd p)) else Blank (S (snd p)).
 
 Definition mk_ft (ind : string) (lead deco mid : list (bool * string)) (defws name sig : string)
@@ -85,7 +78,8 @@ Definition check (c : tcase) : bool :=
       && dpos_eqb (dpos_of dt) op
       && str_eqb (set_doc_src (S src) op (S d) ins (S nm) onpos) (S out)
       && (if negb ins && safe_doc (S d)
-          then str_eqb (drender (set_doc_text dt (S d))) (S out)
+          then wf_dtextb dt (S nm) onpos
+               && str_eqb (drender (set_doc_text dt (S d))) (S out)
                && opt_eqb str_eqb (read_doc (skipn (dp_S op) (S out))) (Some (S d))
                && str_eqb (S odoc) (S d)
           else true)
@@ -118,7 +112,7 @@ Definition explain (c : tcase) : list bool :=
   | TDoc dt src op d ins nm onpos out odoc =>
       [ str_eqb (drender dt) (S src); dpos_eqb (dpos_of dt) op;
         str_eqb (set_doc_src (S src) op (S d) ins (S nm) onpos) (S out);
-        negb ins && safe_doc (S d);
+        negb ins && safe_doc (S d); wf_dtextb dt (S nm) onpos;
         str_eqb (drender (set_doc_text dt (S d))) (S out);
         opt_eqb str_eqb (read_doc (skipn (dp_S op) (S out))) (Some (S d));
         str_eqb (S odoc) (S d) ]
